@@ -255,9 +255,13 @@ def main():
     json.dump(evidence, open(os.path.join(ROOT, 'evidence', prop + '.json'), 'w'), indent=1)
     print('%s %s: %d runs (%d executions, %d distinct non-trivial cases) in %.1fs (build %.1fs); violations=%d known=%d engine_errors=%d'
           % (prop, tier, executed, evaluations, len(shapes), wall, build_s, len(violations), len(known_hits), len(engine_errors)))
-    if engine_errors:
-        return 2
-    return 1 if violations else 0
+    # a violation that was confirmed by replaying its file in a fresh process stands on its own: exit 1. Engine errors
+    # (a candidate that did not reproduce, a nondeterministic re-execution, a dead worker) make the check exit 2 only
+    # when nothing was confirmed - e.g. hidden process-global state in the library makes SOME candidates of a batch
+    # unrepeatable outside the process that produced them, while others replay exactly.
+    if violations:
+        return 1
+    return 2 if engine_errors else 0
 
 if __name__ == '__main__':
     sys.exit(main())
